@@ -1450,8 +1450,10 @@ class GroupBy:
 
         # TODO: allow a target vector
         results = parallel_map(func, arg_list)
+        # empty groups are skipped above, so there are fewer results than groups
+        n_results = len(results) // len(value_list)
         results_per_value = [
-            results[i * self.ngroups : (i + 1) * self.ngroups]
+            results[i * n_results : (i + 1) * n_results]
             for i in range(len(value_list))
         ]
         result_col_names = self._col_names_from_value_names(value_names)
